@@ -150,6 +150,7 @@ def gen(t, tier):
         if t.chance(0.35):
             sc['coverage'] = None       # whole extent: the per-level fast paths of every backend on a deep pyramid
     sc['old_dirs'] = b['type'] == 'file' and bool(t.chance(0.2))
+    sc['vanish'] = [t.choice(1000), t.choice(60)] if (b['type'] == 'file' and not b.get('link') and t.chance(0.25)) else None
     sc['slow_remove'] = t.pick([None] * 9 + [3.0, 7.0])
     if deep:
         sc['slow_remove'] = None        # thousands of multi-second removals would only burn steps
@@ -176,7 +177,7 @@ def shrink(sc):
                 yield c
         size //= 2
     for key, simple in (('coverage', None), ('cov_srs', '3857'), ('meta_size', [1, 1]), ('salt', None), ('after', 0.0),
-                        ('cache_refresh', None), ('pre_task', None), ('old_dirs', False), ('slow_remove', None)):
+                        ('cache_refresh', None), ('pre_task', None), ('old_dirs', False), ('slow_remove', None), ('vanish', None)):
         if sc.get(key, simple) != simple:
             c = copy.deepcopy(sc)
             c[key] = simple
@@ -457,6 +458,29 @@ def _run(sc, tape):
         if before != set(times_of):
             result['bad'] = ('store-lost', 'tiles %s are not in the cache after storing them' % sorted(set(times_of) - before))
             return
+        if sc.get('vanish') is not None and onsim and b['type'] == 'file' and not b.get('link') and tiles:
+            # a live server next to the cleanup: the temp file of a tile it is just writing sits in a tile directory and is
+            # renamed away (here: removed) while the cleanup walks that directory
+            from mapproxy.cache.tile import Tile as _Tile
+            vt = tiles[sc['vanish'][0] % len(tiles)][0]
+            tmp_path = cache.tile_location(_Tile(vt)) + '.tmp-4242'
+            try:
+                fdv = w.fs.os_open(tmp_path, os.O_CREAT | os.O_WRONLY, 0o644)
+                w.fs.fd_write(fdv, b'partial tile data')
+                w.fs.fd_close(fdv)
+                w.fs.utime(tmp_path, (1.0e9, 1.0e9))
+            except OSError:
+                tmp_path = None
+            if tmp_path is not None:
+                def vanisher():
+                    for _ in range(sc['vanish'][1]):
+                        sched.yield_point('server-busy', 0)
+                    try:
+                        os.unlink(tmp_path)
+                    except OSError:
+                        pass
+                sched.spawn(vanisher, 'server', w.new_proc('server'))
+                faults['file_vanishes_during_walk'] = 1
         if sc.get('slow_remove'):
             # a stalled backend (network storage, a database busy with the live server): every removal takes seconds, the
             # walker's hand-off queue stays full for longer than its 5 s put time-out
